@@ -305,9 +305,39 @@ def check_posterior(rng, exprs, label):
     names = pm.get_parameter_names()
     ids = rng.sample(['b', 'a', 'zz', 'c10'], rng.choice([1, 2, 3]))
     pooled = [n for n in names if rng.random() < 0.35]
-    ds, n_chains, n_draws = tagged_dataset(rng, names, ids, pooled)
-    pp = chi.PosteriorPredictiveModel(pm, ds)
-    ind = rng.choice(ids)
+    # the posterior may store the variables under other names (param_map: model name -> name in the dataset); those
+    # may be new names or names of other model parameters (swapped, shifted along a chain), in any dictionary order
+    dsname, pmap = list(names), None
+    if rng.random() < 0.5:
+        sub = rng.sample(range(len(names)), rng.randint(1, len(names)))
+        mode = rng.choice(['fresh', 'cycle', 'chain'])
+        if mode == 'fresh' or len(sub) == 1:
+            targets = ['variable %d' % j for j in sub]
+        elif mode == 'cycle':
+            targets = [names[j] for j in sub[1:] + sub[:1]]
+        else:
+            targets = [names[j] for j in sub[1:]] + ['variable end']
+        pairs = list(zip(sub, targets))
+        rng.shuffle(pairs)
+        pmap = {names[j]: t for j, t in pairs}
+        for j, t in pairs:
+            dsname[j] = t
+    ds, n_chains, n_draws = tagged_dataset(rng, dsname, ids, [dsname[j] for j, n in enumerate(names) if n in pooled])
+    pp = chi.PosteriorPredictiveModel(pm, ds) if pmap is None else chi.PosteriorPredictiveModel(pm, ds, param_map=pmap)
+    # several requests to one model object, for different individuals
+    inds = [rng.choice(ids)]
+    if len(ids) > 1 and rng.random() < 0.7:
+        inds.append(rng.choice([i for i in ids if i != inds[0]]))
+        if rng.random() < 0.5:
+            inds.append(inds[0])
+    for ind in inds:
+        r = posterior_request(rng, exprs, label, pp, pm, names, ids, pooled, ind, n_chains, n_draws, n_out, pmap)
+        if r:
+            return r
+    return None
+
+
+def posterior_request(rng, exprs, label, pp, pm, names, ids, pooled, ind, n_chains, n_draws, n_out, pmap):
     k = ids.index(ind)
     times = rng.sample([0.5, 1.0, 2.0, 4.0], rng.choice([2, 3]))
     n = rng.choice([1, 2, 4])
@@ -332,7 +362,7 @@ def check_posterior(rng, exprs, label):
                  if all(got[j] == cols[j][c][d] for j in range(len(names)))]
         if not joint:
             return ('PosteriorPredictiveModel(individual=%s): sample %d was simulated with %s, which is not one joint '
-                    '(chain, draw) of that individual (pooled variables: %s)' % (ind, s + 1, got, pooled))
+                    '(chain, draw) of that individual (pooled variables: %s, param_map: %s)' % (ind, s + 1, got, pooled, pmap))
         exprs.append((label, 'c15_joint %d %d %s %s%%Z' % (
             n_chains, n_draws, coq_list(cols, lambda col: coq_list(col, lambda r: '%s%%Z' % coq_list(
                 [scaled(x, 1024) for x in r], coqZ))), coq_list([scaled(x, 1024) for x in got], coqZ))))
@@ -376,23 +406,45 @@ def check_pam(rng):
         ds, _, _ = tagged_dataset(random.Random(m), names, ['a', 'b'], [])
         ds = ds + 10.0 * m                       # the model is recognisable from the values
         models.append(chi.PosteriorPredictiveModel(pm, ds))
-    w = [0.2, 0.5, 0.3]
-    pam = chi.PAMPredictiveModel(models, w)
-    n = 3000
-    reset_logs()
-    df = pam.sample([1.0], n_samples=n, individual='b', seed=rng.randrange(1000))
-    ids = sorted(int(x) for x in df['ID'])
-    if ids != list(range(1, n + 1)):
-        return 'PAMPredictiveModel: the sample IDs are not 1..%d, each once (e.g. %s)' % (n, ids[:5])
-    model_of = np.floor((df.sort_values('ID')['Value'].to_numpy(dtype=float)) / (10.0 * 2.0 + 0.001)).astype(int)
-    # value = out_0(1.0; p0, p1) + eps/64 with parameters 10 m + (1 .. 2.6): model m gives values in a band of its own
-    v = df.sort_values('ID')['Value'].to_numpy(dtype=float)
-    band = np.digitize(v, [25.0, 55.0])
-    del model_of
-    freq = [float(np.mean(band == m)) for m in range(3)]
-    for m in range(3):
-        if abs(freq[m] - w[m]) > 5 * math.sqrt(w[m] * (1 - w[m]) / n):
-            return 'PAMPredictiveModel: model %d was chosen with frequency %.3f, its weight is %.2f' % (m, freq[m], w[m])
+
+    def draw(w, n, seed):
+        """model index of every sample ID (value = out_0(1.0; p0, p1) + eps/64 with parameters 10 m + (1 .. 2.6):
+        model m gives values in a band of its own)"""
+        pam = chi.PAMPredictiveModel(models, w)
+        reset_logs()
+        df = pam.sample([1.0], n_samples=n, individual='b', seed=seed)
+        ids = sorted(int(x) for x in df['ID'])
+        if ids != list(range(1, n + 1)):
+            return None, 'PAMPredictiveModel(weights %s): the sample IDs are not 1..%d, each once (e.g. %s)' % (w, n, ids[:5])
+        v = df.sort_values('ID')['Value'].to_numpy(dtype=float)
+        return np.digitize(v, [25.0, 55.0]), None
+
+    def compare(w, band, n):
+        tot = sum(w)
+        for m in range(3):
+            pr = w[m] / tot
+            f = float(np.mean(band == m))
+            if (pr == 0 and f > 0) or abs(f - pr) > 5 * math.sqrt(pr * (1 - pr) / n):
+                return 'PAMPredictiveModel(weights %s): model %d generated a fraction %.3f of %d samples, its weight ' \
+                       'is %.3f' % (w, m, f, n, pr)
+        return None
+    # many samples in one request, also with models that must never be chosen
+    for w, n in (([0.2, 0.5, 0.3], 3000), ([2, 0, 2], 400), ([0, 0, 1], 7), ([0, 1, 0], 3)):
+        band, err = draw(w, n, rng.randrange(1000))
+        err = err or compare(w, band, n)
+        if err:
+            return err
+    # few samples per request (most models are not drawn at all), over many requests
+    for w, n in (([0.2, 0.5, 0.3], 1), ([0.1, 0.3, 0.6], 2)):
+        bands = []
+        for rep in range(150):
+            band, err = draw(w, n, 1000 * n + rep)
+            if err:
+                return err
+            bands += list(band)
+        err = compare(w, np.array(bands), len(bands))
+        if err:
+            return err + ' (requests of %d sample(s))' % n
     return None
 
 
@@ -487,7 +539,7 @@ def run(ck):
                       'compositions of Gaussian / log-normal (centred and not) / pooled / truncated sub-models with and '
                       'without covariates, n_samples 1-4 with stored n_ids 1, 2 or 5; PriorPredictiveModel with a tagged '
                       'prior; PosteriorPredictiveModel on tagged datasets of 1-3 chains x 2-3 draws x 1-3 individuals with '
-                      'mixed individual- and population-level variables; PAMPredictiveModel with 3 models, 3000 samples; '
+                      'mixed individual- and population-level variables; PAMPredictiveModel with 3 models: 3000 samples, zero weights, 300 requests of 1-2 samples; posterior predictive models with param_map (new, swapped and chained names) and repeated requests for different individuals; '
                       'distinct = distinct seed')
     ck.log('exact route: %d expressions' % len(exprs))
     bad = ck.exact('tables', HEADER, exprs, shard=120)
